@@ -1,1 +1,809 @@
-// harness stub
+//! C09 harness (child module of `astria_conductor::celestia`, compiled only with `--features verif` in test builds).
+//!
+//! Two entry points, both recorders (the oracle is /verif/lib/checkers/c09.py):
+//!  * `quorum_sweep`  – calls the real `ensure_commit_has_quorum` on harness-signed commits over enumerated voting
+//!    power vectors x signer subsets x signature defects and logs the raw facts + the answer.
+//!  * `pipeline`      – runs the real `decode_raw_blobs -> verify_metadata(BlobVerifier against a loopback CometBFT
+//!    JSON-RPC mock) -> reconstruct_blocks_from_verified_blobs` on blob sets mixing honest and hostile items and logs
+//!    what was served, what was posted, and what came out.
+#![allow(clippy::pedantic, clippy::arithmetic_side_effects, dead_code)]
+
+#[path = "/verif/harness/common/vlog.rs"]
+mod vlog;
+
+use std::{
+    collections::HashMap,
+    sync::{
+        Arc,
+        Mutex,
+    },
+};
+
+use astria_core::{
+    crypto::SigningKey,
+    generated::astria::sequencerblock::v1::{
+        SubmittedMetadataList,
+        SubmittedRollupDataList,
+    },
+    primitive::v1::RollupId,
+    protocol::test_utils::ConfigureSequencerBlock,
+    sequencerblock::v1::{
+        block,
+        SubmittedMetadata,
+    },
+};
+use celestia_types::{
+    nmt::Namespace,
+    Blob,
+};
+use prost::Message as _;
+use rand::{
+    Rng as _,
+    RngCore as _,
+    SeedableRng as _,
+};
+use rand_chacha::ChaChaRng;
+use sequencer_client::{
+    tendermint,
+    tendermint_rpc,
+};
+use serde_json::json;
+use vlog::VLog;
+
+use super::{
+    convert::decode_raw_blobs,
+    ensure_commit_has_quorum,
+    fetch::RawBlobs,
+    reconstruct::reconstruct_blocks_from_verified_blobs,
+    verify::{
+        verify_metadata,
+        BlobVerifier,
+    },
+};
+
+const CHAIN_ID: &str = "verif-seq-0";
+
+struct Val {
+    key: SigningKey,
+    pub_key: tendermint::PublicKey,
+    address: tendermint::account::Id,
+    power: u64,
+}
+
+fn make_val(rng: &mut ChaChaRng, power: u64) -> Val {
+    let key = SigningKey::new(&mut *rng);
+    let pub_key = tendermint::PublicKey::from_raw_ed25519(key.verification_key().as_ref()).unwrap();
+    Val {
+        address: tendermint::account::Id::from(pub_key),
+        pub_key,
+        key,
+        power,
+    }
+}
+
+fn validator_set(height: u64, vals: &[Val]) -> tendermint_rpc::endpoint::validators::Response {
+    let infos = vals
+        .iter()
+        .map(|v| tendermint::validator::Info {
+            address: v.address,
+            pub_key: v.pub_key,
+            power: tendermint::vote::Power::try_from(v.power).unwrap(),
+            proposer_priority: 0.into(),
+            name: None,
+        })
+        .collect::<Vec<_>>();
+    let n = infos.len() as i32;
+    tendermint_rpc::endpoint::validators::Response::new(
+        tendermint::block::Height::try_from(height).unwrap(),
+        infos,
+        n,
+    )
+}
+
+fn block_id(hash: [u8; 32]) -> tendermint::block::Id {
+    tendermint::block::Id {
+        hash: tendermint::Hash::Sha256(hash),
+        part_set_header: tendermint::block::parts::Header::default(),
+    }
+}
+
+/// How one entry of `commit.signatures` is built. The oracle only needs `validator`, `flag`, `sig`.
+#[derive(Clone, Debug)]
+struct SigSpec {
+    validator: usize,      // index into vals; usize::MAX = a key that is not in the validator set
+    flag: &'static str,    // commit | nil | absent
+    sig: &'static str,     // valid | forged_other_key | wrong_chain | wrong_height | wrong_round | wrong_block | corrupt | empty
+}
+
+fn sign_vote(
+    key: &SigningKey,
+    chain_id: &str,
+    height: u64,
+    round: u16,
+    bid: Option<tendermint::block::Id>,
+    ts: tendermint::Time,
+) -> tendermint::Signature {
+    let canonical_vote = tendermint::vote::CanonicalVote {
+        vote_type: tendermint::vote::Type::Precommit,
+        height: tendermint::block::Height::try_from(height).unwrap(),
+        round: round.into(),
+        block_id: bid,
+        timestamp: Some(ts),
+        chain_id: chain_id.try_into().unwrap(),
+    };
+    let message = sequencer_client::tendermint_proto::types::CanonicalVote::from(canonical_vote)
+        .encode_length_delimited_to_vec();
+    let signature = key.sign(&message);
+    signature.to_bytes().as_ref().try_into().unwrap()
+}
+
+fn make_commit(
+    vals: &[Val],
+    outsider: &Val,
+    specs: &[SigSpec],
+    chain_id: &str,
+    height: u64,
+    hash: [u8; 32],
+) -> tendermint::block::Commit {
+    let round = 0u16;
+    let bid = block_id(hash);
+    let mut signatures = vec![];
+    for (k, s) in specs.iter().enumerate() {
+        let ts = tendermint::Time::from_unix_timestamp(1_700_000_000 + k as i64, 7).unwrap();
+        let v = if s.validator == usize::MAX { outsider } else { &vals[s.validator] };
+        let mut other_hash = hash;
+        other_hash[0] ^= 0x55;
+        let sig: Option<tendermint::Signature> = match s.sig {
+            "valid" => Some(sign_vote(&v.key, chain_id, height, round, Some(bid), ts)),
+            "forged_other_key" => Some(sign_vote(&outsider.key, chain_id, height, round, Some(bid), ts)),
+            "wrong_chain" => Some(sign_vote(&v.key, "other-chain", height, round, Some(bid), ts)),
+            "wrong_height" => Some(sign_vote(&v.key, chain_id, height + 1, round, Some(bid), ts)),
+            "wrong_round" => Some(sign_vote(&v.key, chain_id, height, round + 1, Some(bid), ts)),
+            "wrong_block" => Some(sign_vote(&v.key, chain_id, height, round, Some(block_id(other_hash)), ts)),
+            "nil_vote" => Some(sign_vote(&v.key, chain_id, height, round, None, ts)),
+            "corrupt" => {
+                let good = sign_vote(&v.key, chain_id, height, round, Some(bid), ts);
+                let mut b = good.as_bytes().to_vec();
+                b[5] ^= 0x40;
+                Some(b.as_slice().try_into().unwrap())
+            }
+            "empty" => None,
+            other => panic!("unknown sig class {other}"),
+        };
+        signatures.push(match s.flag {
+            "commit" => tendermint::block::CommitSig::BlockIdFlagCommit {
+                validator_address: v.address,
+                timestamp: ts,
+                signature: sig,
+            },
+            "nil" => tendermint::block::CommitSig::BlockIdFlagNil {
+                validator_address: v.address,
+                timestamp: ts,
+                signature: sig,
+            },
+            _ => tendermint::block::CommitSig::BlockIdFlagAbsent,
+        });
+    }
+    tendermint::block::Commit {
+        height: tendermint::block::Height::try_from(height).unwrap(),
+        round: round.into(),
+        block_id: bid,
+        signatures,
+    }
+}
+
+fn specs_json(specs: &[SigSpec]) -> serde_json::Value {
+    specs
+        .iter()
+        .map(|s| json!([if s.validator == usize::MAX { -1i64 } else { s.validator as i64 }, s.flag, s.sig]))
+        .collect()
+}
+
+const ALPHABET: [u64; 10] = [1, 2, 3, 5, 10, 33, 34, 67, 100, 1 << 62];
+const DEFECTS: [&str; 8] =
+    ["forged_other_key", "wrong_chain", "wrong_height", "wrong_round", "wrong_block", "corrupt", "empty", "nil_vote"];
+
+fn judge_quorum(log: &VLog, vals: &[Val], outsider: &Val, specs: &[SigSpec], class: &str, commit_height_delta: u64) {
+    let height = 42u64;
+    let hash = [9u8; 32];
+    let commit = make_commit(vals, outsider, specs, CHAIN_ID, height + commit_height_delta, hash);
+    let vset = validator_set(height, vals);
+    let chain_id: tendermint::chain::Id = CHAIN_ID.try_into().unwrap();
+    let res = vlog::guarded(|| ensure_commit_has_quorum(&commit, &vset, &chain_id));
+    let (accepted, err) = match &res {
+        Ok(Ok(())) => (true, String::new()),
+        Ok(Err(e)) => (false, format!("{e:?}").split(|c: char| !c.is_alphanumeric()).next().unwrap_or("").to_string()),
+        Err(p) => (false, format!("PANIC {p}")),
+    };
+    log.ev(json!({"kind": "quorum_case", "class": class,
+        "powers": vals.iter().map(|v| v.power).collect::<Vec<_>>(),
+        "entries": specs_json(specs), "commit_height_delta": commit_height_delta,
+        "accepted": accepted, "err": err, "panic": res.is_err()}));
+}
+
+/// entry: exhaustive over power vectors (alphabet^n, n<=3 quick / n<=4 thorough) x all signer subsets, each with the
+/// all-valid commit and a rotating set of defect variants; sampled for n = 4..=5.
+#[test]
+fn quorum_sweep() {
+    let log = VLog::open("c09-quorum");
+    let (shard, shards) = vlog::shard();
+    let mut rng = ChaChaRng::seed_from_u64(vlog::seed() ^ 0xC09);
+    // one fixed key set: signatures do not depend on the power assigned
+    let keys: Vec<Val> = (0..5).map(|_| make_val(&mut rng, 1)).collect();
+    let outsider = make_val(&mut rng, 1);
+    let max_exh = if vlog::thorough() { 4 } else { 3 };
+    let mut case_no = 0u64;
+    let mut run_vector = |powers: &[u64], rng: &mut ChaChaRng, log: &VLog| {
+        let n = powers.len();
+        let vals: Vec<Val> = powers
+            .iter()
+            .enumerate()
+            .map(|(i, p)| Val {
+                key: keys[i].key.clone(),
+                pub_key: keys[i].pub_key,
+                address: keys[i].address,
+                power: *p,
+            })
+            .collect();
+        for mask in 0u32..(1 << n) {
+            let signers: Vec<usize> = (0..n).filter(|i| mask & (1 << i) != 0).collect();
+            let base: Vec<SigSpec> = (0..n)
+                .map(|i| SigSpec {
+                    validator: i,
+                    flag: if mask & (1 << i) != 0 { "commit" } else { "absent" },
+                    sig: if mask & (1 << i) != 0 { "valid" } else { "empty" },
+                })
+                .collect();
+            judge_quorum(log, &vals, &outsider, &base, "all_valid", 0);
+            if signers.is_empty() {
+                continue;
+            }
+            // one signer's signature defective (rotating defect)
+            let who = signers[rng.gen_range(0..signers.len())];
+            let defect = DEFECTS[(case_no % DEFECTS.len() as u64) as usize];
+            case_no += 1;
+            let mut s = base.clone();
+            if defect == "nil_vote" {
+                s[who].flag = "nil";
+            }
+            s[who].sig = defect;
+            judge_quorum(log, &vals, &outsider, &s, "one_defective", 0);
+            // every signer duplicated once (same validator listed twice)
+            for &d in &signers {
+                let mut s = base.clone();
+                s.push(SigSpec { validator: d, flag: "commit", sig: "valid" });
+                judge_quorum(log, &vals, &outsider, &s, "duplicate_signer", 0);
+            }
+            // an absent validator replaced by duplicates of a signer, so len(signatures) == len(validators)
+            if signers.len() < n {
+                let mut s = base.clone();
+                let d = signers[rng.gen_range(0..signers.len())];
+                for e in s.iter_mut() {
+                    if e.flag == "absent" {
+                        *e = SigSpec { validator: d, flag: "commit", sig: "valid" };
+                    }
+                }
+                judge_quorum(log, &vals, &outsider, &s, "absent_replaced_by_duplicate", 0);
+            }
+            if case_no % 7 == 0 {
+                // a key outside the validator set signs as well
+                let mut s = base.clone();
+                s.push(SigSpec { validator: usize::MAX, flag: "commit", sig: "valid" });
+                judge_quorum(log, &vals, &outsider, &s, "outsider_signs", 0);
+                judge_quorum(log, &vals, &outsider, &base, "commit_height_mismatch", 1);
+            }
+        }
+    };
+    let mut idx = 0u64;
+    for n in 1..=max_exh {
+        let total = ALPHABET.len().pow(n as u32);
+        for code in 0..total {
+            idx += 1;
+            if idx % shards != shard {
+                continue;
+            }
+            let mut c = code;
+            let powers: Vec<u64> = (0..n)
+                .map(|_| {
+                    let p = ALPHABET[c % ALPHABET.len()];
+                    c /= ALPHABET.len();
+                    p
+                })
+                .collect();
+            run_vector(&powers, &mut rng, &log);
+        }
+    }
+    // sampled larger sets, powers around thirds of random totals
+    let samples = if vlog::thorough() { 4000 } else { 400 };
+    for k in 0..samples {
+        if k % shards != shard {
+            continue;
+        }
+        let n = rng.gen_range((max_exh + 1).min(5)..=5);
+        let powers: Vec<u64> = (0..n)
+            .map(|_| match rng.gen_range(0..4) {
+                0 => ALPHABET[rng.gen_range(0..ALPHABET.len())],
+                1 => rng.gen_range(1..=12),
+                2 => rng.gen_range(1..=1000),
+                _ => rng.gen_range(1..=(1u64 << 61)),
+            })
+            .collect();
+        run_vector(&powers, &mut rng, &log);
+    }
+    log.end();
+}
+
+// ------------------------------------------------------------------------------------------------ pipeline
+
+#[derive(Clone)]
+struct Served {
+    signed_header: tendermint::block::signed_header::SignedHeader,
+    validators: tendermint_rpc::endpoint::validators::Response,
+}
+
+fn signed_header(chain_id: &str, height: u64, commit: tendermint::block::Commit, proposer: tendermint::account::Id)
+    -> tendermint::block::signed_header::SignedHeader {
+    tendermint::block::signed_header::SignedHeader::new(
+        tendermint::block::Header {
+            version: tendermint::block::header::Version { block: 1, app: 1 },
+            chain_id: chain_id.try_into().unwrap(),
+            height: tendermint::block::Height::try_from(height).unwrap(),
+            time: tendermint::time::Time::from_unix_timestamp(1, 1).unwrap(),
+            last_block_id: None,
+            last_commit_hash: None,
+            data_hash: None,
+            validators_hash: tendermint::Hash::Sha256([0; 32]),
+            next_validators_hash: tendermint::Hash::Sha256([0; 32]),
+            consensus_hash: tendermint::Hash::Sha256([0; 32]),
+            app_hash: tendermint::AppHash::default(),
+            last_results_hash: None,
+            evidence_hash: None,
+            proposer_address: proposer,
+        },
+        commit,
+    )
+    .unwrap()
+}
+
+async fn start_cometbft_mock(table: Arc<Mutex<HashMap<u64, Served>>>) -> wiremock::MockServer {
+    use wiremock::{
+        Mock,
+        ResponseTemplate,
+    };
+    let server = wiremock::MockServer::start().await;
+    Mock::given(wiremock::matchers::method("POST"))
+        .respond_with(move |req: &wiremock::Request| {
+            let body: serde_json::Value = serde_json::from_slice(&req.body).unwrap_or(json!({}));
+            let method = body["method"].as_str().unwrap_or("").to_string();
+            let height: u64 = body["params"]["height"].as_str().and_then(|h| h.parse().ok()).unwrap_or(0);
+            let served = table.lock().unwrap().get(&height).cloned();
+            match (method.as_str(), served) {
+                ("commit", Some(s)) => ResponseTemplate::new(200).set_body_json(
+                    tendermint_rpc::response::Wrapper::new_with_id(
+                        tendermint_rpc::Id::uuid_v4(),
+                        Some(tendermint_rpc::endpoint::commit::Response {
+                            signed_header: s.signed_header,
+                            canonical: true,
+                        }),
+                        None,
+                    ),
+                ),
+                ("validators", Some(s)) => ResponseTemplate::new(200).set_body_json(
+                    tendermint_rpc::response::Wrapper::new_with_id(tendermint_rpc::Id::uuid_v4(), Some(s.validators), None),
+                ),
+                // unknown height: a JSON-RPC level error (not retried by the client, unlike transport errors)
+                _ => ResponseTemplate::new(200).set_body_json(json!({
+                    "jsonrpc": "2.0", "id": "x",
+                    "error": {"code": -32603, "message": "Internal error", "data": "height must be less than or equal to the current blockchain height"}
+                })),
+            }
+        })
+        .mount(&server)
+        .await;
+    server
+}
+
+fn compress_to_blob(ns: Namespace, raw: &[u8]) -> Blob {
+    let data = astria_core::brotli::compress_bytes(raw).unwrap();
+    Blob::new(ns, data, celestia_types::AppVersion::V3).unwrap()
+}
+
+fn rnd_bytes(rng: &mut ChaChaRng, n: usize) -> Vec<u8> {
+    let mut v = vec![0u8; n];
+    rng.fill_bytes(&mut v);
+    v
+}
+
+fn tx_digests(txs: &[bytes::Bytes]) -> Vec<String> {
+    use sha2::Digest as _;
+    txs.iter().map(|t| vlog::hex(&sha2::Sha256::digest(t)[..8])).collect()
+}
+
+/// entry: one process runs `cases` scenarios against one loopback mock.
+#[tokio::test(flavor = "multi_thread", worker_threads = 2)]
+async fn pipeline() {
+    let log = VLog::open("c09-pipeline");
+    let (shard, shards) = vlog::shard();
+    let mut rng = ChaChaRng::seed_from_u64(vlog::seed().wrapping_mul(1_000_003) ^ shard ^ 0xC0900);
+    let table: Arc<Mutex<HashMap<u64, Served>>> = Arc::new(Mutex::new(HashMap::new()));
+    let server = start_cometbft_mock(table.clone()).await;
+    let cases = vlog::env_u64("VERIF_CASES", if vlog::thorough() { 400 } else { 40 });
+    let target_rollup = RollupId::new([24; 32]);
+    let other_rollups = [RollupId::new([25; 32]), RollupId::new([26; 32]), RollupId::new([27; 32])];
+    let seq_ns = astria_core::celestia::namespace_v0_from_sha256_of_bytes(CHAIN_ID.as_bytes());
+    let rollup_ns = astria_core::celestia::namespace_v0_from_rollup_id(target_rollup);
+
+    // rollup state: whatever the crate's own test utility gives; heights are generated relative to it
+    let (_state_tx, state_rx) = crate::state::channel(crate::test_utils::make_rollup_state(
+        "verif-session".to_string(),
+        crate::test_utils::make_execution_session_parameters(),
+        crate::test_utils::make_commitment_state(),
+    ));
+    let first_height = state_rx.next_expected_firm_sequencer_height().value();
+    let mut next_height = first_height;
+
+    for case in 0..cases {
+        let _ = shards;
+        let client = sequencer_client::HttpClient::new(&*server.uri()).unwrap();
+        let verifier = Arc::new(BlobVerifier::try_new(client, 2000).unwrap());
+        // validator set of this case
+        let nvals = rng.gen_range(1..=5usize);
+        let vals: Vec<Val> = (0..nvals)
+            .map(|_| {
+                let p = match rng.gen_range(0..3) {
+                    0 => ALPHABET[rng.gen_range(0..9)],
+                    1 => rng.gen_range(1..=10),
+                    _ => rng.gen_range(1..=1000),
+                };
+                make_val(&mut rng, p)
+            })
+            .collect();
+        let outsider = make_val(&mut rng, 1);
+        let total: u128 = vals.iter().map(|v| u128::from(v.power)).sum();
+        let nblocks = rng.gen_range(1..=4usize);
+        let mut metadata_raw = vec![];   // (id, raw)
+        let mut rollup_raw = vec![];
+        let mut item_no = 0u32;
+        let mut blocks_info = vec![];
+        for _ in 0..nblocks {
+            let height = next_height;
+            next_height += 1;
+            let mut hash = [0u8; 32];
+            rng.fill_bytes(&mut hash);
+            // block content
+            let has_target = rng.gen_bool(0.75);
+            let mut sequence_data = vec![];
+            if has_target {
+                for _ in 0..rng.gen_range(1..=3) {
+                    let n = rng.gen_range(0..40);
+                    sequence_data.push((target_rollup, rnd_bytes(&mut rng, n)));
+                }
+            }
+            for r in &other_rollups {
+                if rng.gen_bool(0.4) {
+                    sequence_data.push((*r, rnd_bytes(&mut rng, 12)));
+                }
+            }
+            let proposer_key = SigningKey::new(&mut rng);
+            let blk = ConfigureSequencerBlock {
+                block_hash: Some(block::Hash::new(hash)),
+                chain_id: Some(CHAIN_ID.to_string()),
+                height: height as u32,
+                sequence_data,
+                unix_timestamp: (1i64, 1u32).into(),
+                signing_key: Some(proposer_key),
+                proposer_address: None,
+                ..Default::default()
+            }
+            .make();
+            let (meta, rollups) = blk.clone().split_for_celestia();
+            // commit served for this height: choose how much power really signs
+            let mode = rng.gen_range(0..10);
+            let mut specs: Vec<SigSpec> = vec![];
+            let mut order: Vec<usize> = (0..nvals).collect();
+            for i in (1..order.len()).rev() {
+                order.swap(i, rng.gen_range(0..=i));
+            }
+            match mode {
+                0..=4 => {
+                    // all sign
+                    for &i in &order {
+                        specs.push(SigSpec { validator: i, flag: "commit", sig: "valid" });
+                    }
+                }
+                5 | 6 => {
+                    // add signers until just above / just not above two thirds
+                    let want_quorum = mode == 5;
+                    let mut acc: u128 = 0;
+                    for &i in &order {
+                        let p = u128::from(vals[i].power);
+                        if want_quorum {
+                            if acc * 3 > total * 2 {
+                                specs.push(SigSpec { validator: i, flag: "absent", sig: "empty" });
+                            } else {
+                                acc += p;
+                                specs.push(SigSpec { validator: i, flag: "commit", sig: "valid" });
+                            }
+                        } else if (acc + p) * 3 > total * 2 {
+                            specs.push(SigSpec { validator: i, flag: "absent", sig: "empty" });
+                        } else {
+                            acc += p;
+                            specs.push(SigSpec { validator: i, flag: "commit", sig: "valid" });
+                        }
+                    }
+                }
+                7 => {
+                    // below quorum, padded with duplicates of a signer
+                    let mut acc: u128 = 0;
+                    let mut first = None;
+                    for &i in &order {
+                        let p = u128::from(vals[i].power);
+                        if (acc + p) * 3 > total * 2 {
+                            if let Some(f) = first {
+                                specs.push(SigSpec { validator: f, flag: "commit", sig: "valid" });
+                            } else {
+                                specs.push(SigSpec { validator: i, flag: "absent", sig: "empty" });
+                            }
+                        } else {
+                            acc += p;
+                            first.get_or_insert(i);
+                            specs.push(SigSpec { validator: i, flag: "commit", sig: "valid" });
+                        }
+                    }
+                }
+                8 => {
+                    // everybody "signs" but some with nil votes
+                    for &i in &order {
+                        if rng.gen_bool(0.5) {
+                            specs.push(SigSpec { validator: i, flag: "nil", sig: "nil_vote" });
+                        } else {
+                            specs.push(SigSpec { validator: i, flag: "commit", sig: "valid" });
+                        }
+                    }
+                }
+                _ => {
+                    // one signature defective
+                    let bad = rng.gen_range(0..nvals);
+                    for &i in &order {
+                        let sig = if i == bad { DEFECTS[rng.gen_range(0..6)] } else { "valid" };
+                        specs.push(SigSpec { validator: i, flag: "commit", sig });
+                    }
+                }
+            }
+            let commit = make_commit(&vals, &outsider, &specs, CHAIN_ID, height, hash);
+            table.lock().unwrap().insert(height, Served {
+                signed_header: signed_header(CHAIN_ID, height, commit, vals[0].address),
+                validators: validator_set(height, &vals),
+            });
+            let honest_target_txs: Vec<bytes::Bytes> = rollups
+                .iter()
+                .find(|r| r.rollup_id() == target_rollup)
+                .map(|r| r.transactions().to_vec())
+                .unwrap_or_default();
+            log.ev(json!({"kind": "served", "case": case, "height": height, "chain_id": CHAIN_ID, "hash": vlog::hex(&hash),
+                "powers": vals.iter().map(|v| v.power).collect::<Vec<_>>(), "entries": specs_json(&specs),
+                "block_has_target_rollup": has_target, "honest_target_txs": tx_digests(&honest_target_txs)}));
+            blocks_info.push((height, hash, meta.clone(), rollups.clone()));
+
+            // ---- metadata items posted for this block
+            let mut post_meta = |class: &str, raw: astria_core::generated::astria::sequencerblock::v1::SubmittedMetadata,
+                                 item_no: &mut u32, log: &VLog| {
+                *item_no += 1;
+                let decodable = SubmittedMetadata::try_from_raw(raw.clone()).is_ok();
+                log.ev(json!({"kind": "posted_metadata", "case": case, "item": *item_no, "class": class,
+                    "claimed_height": raw.header.as_ref().map(|h| h.height), "claimed_chain_id": raw.header.as_ref().map(|h| h.chain_id.clone()),
+                    "hash": vlog::hex(&raw.block_hash), "decodable": decodable}));
+                metadata_raw.push(raw);
+            };
+            if rng.gen_bool(0.85) {
+                post_meta("honest", meta.clone().into_raw(), &mut item_no, &log);
+            }
+            if rng.gen_bool(0.5) {
+                // same header, other block hash
+                let mut raw = meta.clone().into_raw();
+                raw.block_hash = rnd_bytes(&mut rng, 32).into();
+                post_meta("wrong_hash", raw, &mut item_no, &log);
+            }
+            if rng.gen_bool(0.4) {
+                let mut raw = meta.clone().into_raw();
+                raw.header.as_mut().unwrap().chain_id = "evil-chain".to_string();
+                post_meta("wrong_chain_id", raw, &mut item_no, &log);
+            }
+            if rng.gen_bool(0.4) {
+                // a forged block for the same height: different content and hash, internally consistent
+                let forged = ConfigureSequencerBlock {
+                    block_hash: Some(block::Hash::new(rnd_bytes(&mut rng, 32).try_into().unwrap())),
+                    chain_id: Some(CHAIN_ID.to_string()),
+                    height: height as u32,
+                    sequence_data: vec![(target_rollup, b"forged payload".to_vec())],
+                    unix_timestamp: (1i64, 1u32).into(),
+                    signing_key: Some(SigningKey::new(&mut rng)),
+                    ..Default::default()
+                }
+                .make();
+                let (fmeta, frollups) = forged.split_for_celestia();
+                post_meta("forged_block_same_height", fmeta.into_raw(), &mut item_no, &log);
+                for r in frollups {
+                    item_no += 1;
+                    log.ev(json!({"kind": "posted_rollup", "case": case, "item": item_no, "class": "forged_block_data",
+                        "hash": vlog::hex(r.sequencer_block_hash().as_bytes()), "txs": tx_digests(r.transactions())}));
+                    rollup_raw.push(r.into_raw());
+                }
+            }
+            if rng.gen_bool(0.3) && blocks_info.len() >= 2 {
+                // honest metadata of this block claiming the height of an earlier block of this case
+                let other_h = blocks_info[0].0;
+                let mut raw = meta.clone().into_raw();
+                raw.header.as_mut().unwrap().height = other_h;
+                post_meta("wrong_height", raw, &mut item_no, &log);
+            }
+            if rng.gen_bool(0.2) {
+                post_meta("replayed_honest", meta.clone().into_raw(), &mut item_no, &log);
+            }
+            if rng.gen_bool(0.2) {
+                // height for which the sequencer serves nothing
+                let mut raw = meta.clone().into_raw();
+                raw.header.as_mut().unwrap().height = 9_000_000 + height;
+                post_meta("unknown_height", raw, &mut item_no, &log);
+            }
+            // ---- rollup data items
+            for r in &rollups {
+                let is_target = r.rollup_id() == target_rollup;
+                let mut post_rollup = |class: &str, raw: astria_core::generated::astria::sequencerblock::v1::SubmittedRollupData,
+                                       item_no: &mut u32, log: &VLog| {
+                    *item_no += 1;
+                    let txs: Vec<bytes::Bytes> = raw.transactions.clone();
+                    log.ev(json!({"kind": "posted_rollup", "case": case, "item": *item_no, "class": class,
+                        "hash": vlog::hex(&raw.sequencer_block_hash), "txs": tx_digests(&txs), "is_target_rollup": is_target}));
+                    rollup_raw.push(raw);
+                };
+                if is_target {
+                    // hostile variants are posted *before* the honest one half of the time
+                    let hostile_first = rng.gen_bool(0.5);
+                    let mut hostile = vec![];
+                    if rng.gen_bool(0.5) {
+                        let mut raw = r.clone().into_raw();
+                        if raw.transactions.is_empty() {
+                            raw.transactions.push(bytes::Bytes::from_static(b"x"));
+                        } else {
+                            let k = rng.gen_range(0..raw.transactions.len());
+                            let mut t = raw.transactions[k].to_vec();
+                            t.push(1);
+                            raw.transactions[k] = t.into();
+                        }
+                        hostile.push(("tampered_tx", raw));
+                    }
+                    if rng.gen_bool(0.3) {
+                        let mut raw = r.clone().into_raw();
+                        raw.transactions.push(bytes::Bytes::from_static(b"appended"));
+                        hostile.push(("appended_tx", raw));
+                    }
+                    if rng.gen_bool(0.3) && r.transactions().len() >= 2 {
+                        let mut raw = r.clone().into_raw();
+                        raw.transactions.pop();
+                        hostile.push(("truncated_txs", raw));
+                    }
+                    if rng.gen_bool(0.3) && r.transactions().len() >= 2 && r.transactions()[0] != r.transactions()[1] {
+                        let mut raw = r.clone().into_raw();
+                        raw.transactions.swap(0, 1);
+                        hostile.push(("reordered_txs", raw));
+                    }
+                    if rng.gen_bool(0.3) {
+                        let mut raw = r.clone().into_raw();
+                        if let Some(p) = raw.proof.as_mut() {
+                            if p.audit_path.is_empty() {
+                                p.audit_path = vec![0u8; 32].into();
+                            } else {
+                                let mut ap = p.audit_path.to_vec();
+                                ap[3] ^= 1;
+                                p.audit_path = ap.into();
+                            }
+                        }
+                        hostile.push(("bad_proof", raw));
+                    }
+                    if hostile_first {
+                        for (c, raw) in hostile.drain(..) {
+                            post_rollup(c, raw, &mut item_no, &log);
+                        }
+                    }
+                    if rng.gen_bool(0.9) {
+                        post_rollup("honest", r.clone().into_raw(), &mut item_no, &log);
+                    }
+                    for (c, raw) in hostile.drain(..) {
+                        post_rollup(c, raw, &mut item_no, &log);
+                    }
+                    if rng.gen_bool(0.2) {
+                        let mut raw = r.clone().into_raw();
+                        raw.sequencer_block_hash = rnd_bytes(&mut rng, 32).into();
+                        post_rollup("wrong_block_hash", raw, &mut item_no, &log);
+                    }
+                } else if rng.gen_bool(0.3) {
+                    // another rollup's data re-labelled as the target rollup's (posted in the target namespace)
+                    let mut raw = r.clone().into_raw();
+                    raw.rollup_id = Some(target_rollup.into_raw());
+                    post_rollup("relabelled_other_rollup", raw, &mut item_no, &log);
+                }
+            }
+        }
+        // data of one block attributed to another block of the case
+        if blocks_info.len() >= 2 && rng.gen_bool(0.5) {
+            let (_, _, _, rollups_a) = &blocks_info[0];
+            let (_, hash_b, _, _) = &blocks_info[1];
+            if let Some(r) = rollups_a.iter().find(|r| r.rollup_id() == target_rollup) {
+                let mut raw = r.clone().into_raw();
+                raw.sequencer_block_hash = hash_b.to_vec().into();
+                item_no += 1;
+                log.ev(json!({"kind": "posted_rollup", "case": case, "item": item_no, "class": "data_of_other_block",
+                    "hash": vlog::hex(hash_b), "txs": tx_digests(&raw.transactions), "is_target_rollup": true}));
+                rollup_raw.push(raw);
+            }
+        }
+        // ---- shuffle and pack into blobs (several lists per namespace), add junk blobs
+        for i in (1..metadata_raw.len()).rev() {
+            metadata_raw.swap(i, rng.gen_range(0..=i));
+        }
+        let mut header_blobs = vec![];
+        let mut rollup_blobs = vec![];
+        // each metadata entry in its own list: a malformed neighbour must not take honest entries down with it
+        for raw in &metadata_raw {
+            header_blobs.push(compress_to_blob(seq_ns, &SubmittedMetadataList { entries: vec![raw.clone()] }.encode_to_vec()));
+        }
+        for raw in &rollup_raw {
+            rollup_blobs.push(compress_to_blob(rollup_ns, &SubmittedRollupDataList { entries: vec![raw.clone()] }.encode_to_vec()));
+        }
+        let mut junk = 0;
+        for _ in 0..rng.gen_range(0..4) {
+            junk += 1;
+            let n = rng.gen_range(0..200);
+            let bytes = rnd_bytes(&mut rng, n);
+            match rng.gen_range(0..4) {
+                0 => header_blobs.push(Blob::new(seq_ns, bytes, celestia_types::AppVersion::V3).unwrap()),
+                1 => rollup_blobs.push(Blob::new(rollup_ns, bytes, celestia_types::AppVersion::V3).unwrap()),
+                2 => header_blobs.push(compress_to_blob(seq_ns, &bytes)),
+                _ => {
+                    // wrong namespace in the header list, and a metadata list posted to the rollup namespace
+                    header_blobs.push(compress_to_blob(rollup_ns, &bytes));
+                    if let Some(raw) = metadata_raw.first() {
+                        rollup_blobs.push(compress_to_blob(rollup_ns, &SubmittedMetadataList { entries: vec![raw.clone()] }.encode_to_vec()));
+                    }
+                }
+            }
+        }
+        if rng.gen_bool(0.3) && !header_blobs.is_empty() {
+            // truncated brotli stream of a real blob
+            let b = &header_blobs[0];
+            let cut = b.data.len() / 2;
+            header_blobs.push(Blob::new(seq_ns, b.data[..cut].to_vec(), celestia_types::AppVersion::V3).unwrap());
+            junk += 1;
+        }
+        let celestia_height = 1000 + case;
+        let raw_blobs = RawBlobs { celestia_height, header_blobs, rollup_blobs };
+        let (nh, nr) = (raw_blobs.len_header_blobs(), raw_blobs.len_rollup_blobs());
+        let decoded = match vlog::guarded(|| decode_raw_blobs(raw_blobs, rollup_ns, seq_ns)) {
+            Ok(d) => d,
+            Err(p) => {
+                log.ev(json!({"kind": "panic", "case": case, "stage": "decode_raw_blobs", "loc": p}));
+                continue;
+            }
+        };
+        let (dh, dr) = (decoded.len_headers(), decoded.len_rollup_data_entries());
+        let verified = verify_metadata(verifier.clone(), decoded, state_rx.clone()).await;
+        let vh = verified.len_header_blobs();
+        let reconstructed = match vlog::guarded(|| reconstruct_blocks_from_verified_blobs(verified, target_rollup)) {
+            Ok(r) => r,
+            Err(p) => {
+                log.ev(json!({"kind": "panic", "case": case, "stage": "reconstruct", "loc": p}));
+                continue;
+            }
+        };
+        for r in &reconstructed {
+            log.ev(json!({"kind": "reconstructed", "case": case, "height": r.header.height().value(),
+                "chain_id": r.header.chain_id().as_str(), "hash": vlog::hex(r.block_hash.as_bytes()),
+                "txs": tx_digests(&r.transactions)}));
+        }
+        log.ev(json!({"kind": "case_done", "case": case, "blobs_header": nh, "blobs_rollup": nr, "junk": junk,
+            "decoded_metadata": dh, "decoded_rollup": dr, "verified_metadata": vh, "reconstructed": reconstructed.len(),
+            "first_height": first_height}));
+    }
+    log.end();
+}
